@@ -123,6 +123,8 @@ def _off_process(d):
     for op in d["ops"]:
         if op[0] in ("K", "N", "F") or (d.get("asrt", 1) and U.must_reject(before, op, d["n"])):
             return []          # a guard has something to refuse here: outside this comparison
+        if op[0] == "E" and any(c >= d["n"] or c == op[1] or c in U._anc(before, op[1]) for c in op[2]):
+            return []          # extend() is a loop of appends: one of its members is a non-node, the node itself or an ancestor
         if U.apply_op(nodes, op) == "hang" or not U.healthy(nodes):
             return []
         before = U.snap(nodes)
